@@ -3,7 +3,7 @@ import SqVerif.VNetSpec
 L2 — generic list lemmas used by the well-formedness proofs (C02 / C07).
 Core Lean only.
 -/
-namespace SqVerif.VNet
+namespace SqVerif.VNet.WFP
 
 open List
 
@@ -163,4 +163,4 @@ theorem nodup_flatMap_getElem? {α β} {l : List α} {f : α → List β} :
         have := h2 0 (j+1) c b x (by simp) (by simpa using hj) hx hb
         omega
 
-end SqVerif.VNet
+end SqVerif.VNet.WFP
